@@ -478,6 +478,7 @@ def c20_post_run(vc, scr, spec, res, children):
     paths = []
     for c in children:
         paths += _glob.glob(os.path.join(c.wd, "race*"))
+        paths += _glob.glob(os.path.join(c.wd, "net", "node*", "race*"))
     reports = parse_race_logs(paths)
     res.obs["race_reports_total"] = len(reports)
     pairs = {}
@@ -533,12 +534,15 @@ def c20_post_run(vc, scr, spec, res, children):
 register("C20", title="no data races", pkg=".", race=True,
          parts=[{"test": "^TestVerifC20$", "race": True, "may_die": True, "children": {"quick": 6, "thorough": 48}, "cases": {"quick": 2, "thorough": 4}},
                 {"pkg": "./internal/outputstream", "name": "outputstream_real", "test": "^TestVerifC08Real$", "race": True,
-                 "children": {"quick": 2, "thorough": 8}, "cases": {"quick": 2, "thorough": 10}}],
+                 "children": {"quick": 2, "thorough": 8}, "cases": {"quick": 2, "thorough": 10}},
+                {"cluster": True, "tiers": ["thorough"], "children": {"quick": 0, "thorough": 4}, "cases": {"quick": 1, "thorough": 3},
+                 "race": {"quick": True, "thorough": True}, "timeout": {"quick": 600, "thorough": 2400}}],
          parallel=6, post_run=c20_post_run,
          timeout={"quick": 600, "thorough": 3000}, level="exploration",
          rule="in-process node built with -race under a stress workload: two posters per session, superseded and cancelled long-poll readers, every status "
               "page, /config GET and POST, /metrics, /irclog, the expiry sweep, /snapshot, session churn and (every other seed) FSM.Restore of a real snapshot "
-              "through raft.Restore while handlers run; plus real-thread stress of the output stream. The oracle is the Go race detector (halt_on_error=0, "
+              "through raft.Restore while handlers run; plus real-thread stress of the output stream; thorough tier: three real binaries built with -race under "
+              "the fault rounds of C05 (their race logs are parsed the same way). The oracle is the Go race detector (halt_on_error=0, "
               "reports counted in the log files, de-duplicated by the unordered pair of innermost robustirc frames). evaluations = operations executed; "
               "distinct = pairs of operation types observed in flight together (overlap matrix); the check is broken if a required pair never overlapped",
          floor={"quick": 1000, "thorough": 20000},
